@@ -70,6 +70,12 @@ func registerIOModels() {
 			return VTuple{E: []Val{VInt{n}, err}}
 		},
 	}
+	libModels["metadata.Join"] = &libModel{
+		desc: "metadata.Join(mds...) returns a newly made MD (never one of its arguments); its contents are unconstrained; the arguments are not modified",
+		apply: func(c *FnCtx, st *State, in ssa.Instruction, cc *ssa.CallCommon, args []Val) Val {
+			return VInt{c.allocRef(st, "md")}
+		},
+	}
 	libModels["io.ReadFull"] = &libModel{
 		desc:   "ReadFull(r, buf) returns 0 <= n <= len(buf); err == nil <=> n == len(buf); err == io.EOF ==> n == 0; n > 0 && err != nil ==> err != io.EOF; buf[0:n] receives the next n stream bytes and rdpos(r) advances by n",
 		writes: []string{"E$uint8", "G$rd.pos"},
